@@ -532,6 +532,16 @@ func (cs *connState) TagDone(t tag) <-chan struct{} {
 	return ch
 }
 
+// frameLimit returns the largest frame the connection accepts right now.
+func (cs *connState) frameLimit() uint32 {
+	messageSize := atomic.LoadUint32(&cs.messageSize)
+	if messageSize == 0 {
+		// Default or not yet negotiated.
+		messageSize = maximumLength
+	}
+	return messageSize
+}
+
 // handleRequest handles a single request.
 //
 // The recvDone channel is signaled when recv is done (with a error if
@@ -552,14 +562,10 @@ func (cs *connState) handleRequest() bool {
 		return false
 	}
 
-	messageSize := atomic.LoadUint32(&cs.messageSize)
-	if messageSize == 0 {
-		// Default or not yet negotiated.
-		messageSize = maximumLength
-	}
-
-	// Receive a message.
-	tag, m, err := recv(cs.server.log, cs.t, messageSize, msgDotLRegistry.get)
+	// Receive a message. Its size is checked against the message size in
+	// force when its header arrives: a Tversion handled since this
+	// goroutine started waiting may have changed it.
+	tag, m, err := recvFrame(cs.server.log, cs.t, cs.frameLimit, msgDotLRegistry.get)
 	if errSocket, ok := err.(ConnError); ok {
 		if errSocket.error != io.EOF {
 			// Connection problem; stop serving.
